@@ -18,7 +18,7 @@ ASSUMPTIONS = ["native module rebuilt from _utils.cpp; thorough tier repeats a s
 EVAL_COUNTER = "fits"
 REQUIRED = {"quick": {"fits": 1200, "fits_with_splits": 600, "limit_binding:max_leaves": 50, "limit_binding:max_depth": 50,
                       "limit_binding:max_clusters": 50, "small_n_vs_split": 30, "threshold_queries": 2000,
-                      "score_checked": 1000, "refit_histories": 150, "score_after_inplace_change": 120},
+                      "score_checked": 1000, "trees_over_32_leaves": 10, "trees_over_64_leaves": 2, "refit_histories": 150, "score_after_inplace_change": 120},
             "thorough": {"fits": 30000, "san:fits": 1000}}
 SHARD_TIMEOUT = {"quick": 1200, "thorough": 7000}
 
@@ -188,6 +188,10 @@ def run_case(case, ctx, st):
             ctx.violation("post-fit-api", f"kauri-api-raises/{type(e).__name__}", observed={"exc": repr(e)[:300], "params": p, "n": n},
                           expected="coherent tree")
             continue
+        if est.tree_.n_nodes > 2 * 32:
+            ctx.count("trees_over_32_leaves")
+        if est.tree_.n_nodes > 2 * 64:
+            ctx.count("trees_over_64_leaves")
         if est.tree_.n_nodes > 1:
             ctx.count("fits_with_splits")
             ctx.distinct(tuple(est.tree_.children_left), tuple(est.tree_.features), tuple(est.tree_.thresholds),
